@@ -12,7 +12,8 @@
    Every theorem below is quantified over ALL oracles (the Section variables), i.e. it holds for every
    behaviour of the optimiser, including raising RuntimeError for any subset of the peaks. *)
 From Coq Require Import QArith Qabs ZArith String List Bool.
-From Verif.C17 Require Import Model ModelOrder Proofs ProofsOrder ProofsWindows ProofsRemove ProofsTotal ProofsRefuted.
+From Verif.C17 Require Import Model ModelOrder Proofs ProofsOrder ProofsWindows ProofsRemove ProofsTotal ProofsRefuted
+  ProofsGuard ProofsRemoveSeq.
 Import ListNotations.
 Open Scope Q_scope.
 
@@ -86,6 +87,30 @@ Theorem C17_narrow_window_fit_peak : guard_first V = true ->
   (forall p b, In p (pk :: pks) -> In b (bk :: bks) -> (length d < n_params p b)%nat) ->
   fit_peak' d w (bk :: bks) (pk :: pks) fp fr = Ok (for_too_narrow_window pk bk w).
 Proof. exact (narrow_window_fit_peak V lt guess curve_fit feval ln chi2cdf). Qed.
+
+(* ---- the guard is per (peak, background) combination: `window_too_narrow` only for a combination with more
+   parameters than the window has points; for model LISTS with different parameter counts the list result is too narrow
+   only as the result of the FIRST combination, and a later combination with enough points that succeeds is returned *)
+Theorem C17_narrow_only_for_that_combination : forall d pk bk w fp fr r,
+  single' d pk bk w fp fr = Ok r -> r_assess r = window_too_narrow -> (length d < n_params pk bk)%nat.
+Proof. exact (narrow_only_when_too_few_points V lt guess curve_fit feval ln chi2cdf). Qed.
+
+Theorem C17_narrow_list_result_is_first_combination : forall d w pk bk pks bks fp fr r,
+  fit_peak' d w (bk :: bks) (pk :: pks) fp fr = Ok r -> r_assess r = window_too_narrow ->
+  single' d pk bk w fp fr = Ok r /\ r_peak r = pk /\ r_bkg r = bk /\ (length d < n_params pk bk)%nat.
+Proof. exact (narrow_list_result_is_first_combination V lt guess curve_fit feval ln chi2cdf). Qed.
+
+Theorem C17_narrow_result_names_its_combination : forall d w bks pks fp fr r,
+  fit_peak' d w bks pks fp fr = Ok r -> r_assess r = window_too_narrow ->
+  In (r_peak r) pks /\ In (r_bkg r) bks /\ (length d < n_params (r_peak r) (r_bkg r))%nat.
+Proof. exact (narrow_result_names_its_combination V lt guess curve_fit feval ln chi2cdf). Qed.
+
+Theorem C17_success_after_too_narrow_combinations : guard_first V = true ->
+  forall d w fp fr pre pk bk post r,
+  (forall p b, In (p, b) pre -> (length d < n_params p b)%nat) ->
+  single' d pk bk w fp fr = Ok r -> r_assess r = success ->
+  fit_peak_go V lt guess curve_fit feval ln chi2cdf d w (pre ++ (pk, bk) :: post) None fp fr = Ok r.
+Proof. exact (success_after_too_narrow_combinations V lt guess curve_fit feval ln chi2cdf). Qed.
 
 (* ... but the FULL statement is false of the tree as found (pre-finding F7): the guesses run before the guard *)
 Theorem C17_narrow_window_raises_refuted :
@@ -234,6 +259,20 @@ Theorem C17_remove_peaks_refuses_variances : forall peval d rs,
   exists m, remove_peaks peval true d rs = Raise (VariancesError m).
 Proof. exact remove_peaks_refuses_variances. Qed.
 
+(* ---- removal depends on the SEQUENCE of results only (whatever Iterable carries it): pieces, dropped failures *)
+Theorem C17_remove_peaks_in_pieces : forall peval v rs1 rs2 d,
+  remove_peaks peval v d (rs1 ++ rs2) =
+  bind (remove_peaks peval v d rs1) (fun d' => if v then Ok d' else remove_go peval rs2 d').
+Proof. exact remove_peaks_in_pieces. Qed.
+
+Theorem C17_remove_peaks_ignores_unsuccessful : forall peval v rs d,
+  remove_peaks peval v d (filter res_success rs) = remove_peaks peval v d rs.
+Proof. exact remove_peaks_ignores_unsuccessful. Qed.
+
+Theorem C17_remove_peaks_nothing_successful : forall peval rs d,
+  forallb (fun r => negb (res_success r)) rs = true -> remove_peaks peval false d rs = Ok d.
+Proof. exact remove_peaks_nothing_successful. Qed.
+
 Print Assumptions C17_one_result_per_estimate.
 Print Assumptions C17_peak_independence.
 Print Assumptions C17_documented_order.
@@ -255,3 +294,10 @@ Print Assumptions C17_inverted_window_raises_refuted.
 Print Assumptions C17_success_nan_p_refuted.
 Print Assumptions C17_remove_peaks_frame.
 Print Assumptions C17_remove_peaks_refuses_variances.
+Print Assumptions C17_narrow_only_for_that_combination.
+Print Assumptions C17_narrow_list_result_is_first_combination.
+Print Assumptions C17_narrow_result_names_its_combination.
+Print Assumptions C17_success_after_too_narrow_combinations.
+Print Assumptions C17_remove_peaks_in_pieces.
+Print Assumptions C17_remove_peaks_ignores_unsuccessful.
+Print Assumptions C17_remove_peaks_nothing_successful.
